@@ -333,7 +333,7 @@ def persist_rule(rep, prog, cfg):
                 parse_f = ref_field_of_local(b, op_local(t["args"][1]))
             if any(n in READS for n in ns):
                 for a in t["args"]:
-                    f = ref_field_of_local(b, op_local(a)) if op_local(a) is not None else None
+                    f = ref_field_of_local(b, op_local(a), depth=12) if op_local(a) is not None else None
                     if f == buf:
                         read_f = f
         rep.check(parse_f == buf and read_f == buf, rule, "%s/%s same buffer read and parsed" % (cfg, fl_name), b.loc(b.span),
